@@ -21,14 +21,14 @@ def _c09_extra(events):
 
 
 reg("C09", "loaders fail cleanly on malformed or truncated files",
-    parts=[dict(harness="c09_loaders", cases=dict(quick=296, thorough=2368), timeout_case=1800, chunk=1,
+    parts=[dict(harness="c09_loaders", cases=dict(quick=296, thorough=3552), timeout_case=1800, chunk=1,
                 # ~10^5 forks per run: the fake-stack machinery of detect_stack_use_after_return and 30-frame malloc
                 # stacks triple the cost of a fork of the ASan image (measured: 10.5 -> 5.5 ms CPU per child); the crash
                 # stack itself is unaffected. Everything else is the driver's policy (DESIGN 5.5).
                 env={"ASAN_OPTIONS": "abort_on_error=1:detect_leaks=0:detect_stack_use_after_return=0:strict_string_checks=1:"
                                      "allocator_may_return_null=1:handle_abort=1:max_allocation_size_mb=4096:"
                                      "malloc_context_size=3:quarantine_size_mb=16:symbolize=0"})],
-    rule="seed files = one canonical generated instance (generator seed fixed, independent of VERIF_SEED; thorough: + 3 instances drawn from VERIF_SEED) of each of the 30 classes of the C08 registry written by "
+    rule="seed files = one canonical generated instance (generator seed fixed, independent of VERIF_SEED; thorough: + 5 instances drawn from VERIF_SEED) of each of the 30 classes of the C08 registry written by "
          "dumpToNF, + Zycor / IfpEn / Bmp grids written by the library, + a hand-written F2G grid, + CSV files in 3 CSVformat "
          "variants, each <= 4 KiB (8 KiB thorough). Mutants of a seed file, enumerated in a fixed order and dealt to 8 (16) "
          "cases: EVERY prefix; every token x {delete, duplicate, -1, 0, 1, 2147483647, 1e308, 99999999999, NA, text, empty "
@@ -39,7 +39,7 @@ reg("C09", "loaders fail cleanly on malformed or truncated files",
          "5 s CPU-time limit, wall-clock watchdog with one re-run before a hang is declared); a returned object goes through basic queries, the "
          "C07 Db consistency rules, save and reload. distinct = (seed kind, instance, batch)",
     level="fault_enumeration",
-    require=dict(distinct=100, oracles=dict(quick={"loader-survives": 40000}, thorough={"loader-survives": 200000})),
+    require=dict(distinct=100, oracles=dict(quick={"loader-survives": 40000}, thorough={"loader-survives": 250000})),
     evidence_extra=_c09_extra,
     assumptions=["a child that answers (clean failure / object / exception) within the limits did not corrupt memory in a way "
                  "ASan's red zones and quarantine can see; far out-of-bounds and intra-object overflows are not detected",
